@@ -430,6 +430,8 @@ class Interp:
                     return TypeV('type(<mapping literal>)', kclass=kclass_of_real(dict), flags=['typeof_literal'])
                 if 'tuplit' in x.flags:
                     return TypeV('type(<tuple literal>)', kclass=kclass_of_real(tuple), flags=['typeof_literal'])
+                # the class of some other type expression (a string forward reference, an alias object ...): an opaque class
+                return TypeV(f'type({x.name})', flags=['typeof_value'])
             raise Undecided(f"type({x!r})")
         if fname in ('builtins.tuple', 'builtins.list') and len(args) == 1 and isinstance(args[0], (tuple, list)):
             return tuple(args[0])
@@ -810,6 +812,13 @@ def catalogue() -> t.List[t.Tuple[TypeV, t.Callable[[ConvResult], t.Optional[str
     add(_generic('Tuple[()]', tuple), conv('TupleConverter', tuple), 'empty tuple type')
     add(_generic('Tuple[A, ...]', tuple, A, ELLIPSIS), conv('SequenceConverter', tuple, extra=elem_arg(1, A)), 'variadic tuple')
     add(T_real(tuple), conv('SequenceConverter', tuple, extra=elem_arg(1, ANY)), 'bare tuple')
+    # the unsubscripted typing aliases: distinct objects whose origin is the class, without arguments (and without __args__)
+    add(TypeV('typing.Tuple (bare alias)', origin=T_real(tuple), args=(), has_args_attr=False),
+        conv('SequenceConverter', tuple, extra=elem_arg(1, ANY)), 'bare typing.Tuple is a variadic tuple of anything')
+    add(TypeV('typing.List (bare alias)', origin=T_real(list), args=(), has_args_attr=False),
+        conv('SequenceConverter', list, extra=elem_arg(1, ANY)), 'bare typing.List')
+    add(TypeV('typing.Dict (bare alias)', origin=T_real(dict), args=(), has_args_attr=False),
+        conv('DictConverter', dict, extra=elem_arg(1, ANY)), 'bare typing.Dict')
     add(T_real(list), conv('SequenceConverter', list, extra=elem_arg(1, ANY)), 'bare list')
     add(_generic('List[A]', list, A), conv('SequenceConverter', list, extra=elem_arg(1, A)), 'list')
     add(_generic('Sequence[A]', cabc.Sequence, A), conv('SequenceConverter', tuple, extra=elem_arg(1, A)), 'Sequence produces a tuple')
@@ -882,7 +891,7 @@ def classify_landmark(model: Model, func: FuncInfo, n: Node, iter_log: t.Optiona
 
 
 def rule_dispatch(model: Model, rule_id: str = 'C01-R1') -> RuleResult:
-    r = RuleResult(rule_id, 'first admitting arm of make_converter is the documented one, for every type kind', floor=55)
+    r = RuleResult(rule_id, 'first admitting arm of make_converter is the documented one, for every type kind', floor=58)
     func = model.func(MK)
     r.analysed.add(func.qualname)
     try:
